@@ -24,7 +24,6 @@ Clauses of the property  ->  theorems
 -/
 import RegionsVerif.Spec.Ds9
 import Mathlib.Tactic.Ring
-import Mathlib.Tactic.NormNum
 
 namespace RegionsVerif.Props.C10
 open RegionsVerif.Spec.Ds9
@@ -407,6 +406,57 @@ theorem bare_is_pixels (s : Shape) (raw : Raw) :
   · intro lon n; simp [posVal, pixPos_withImg]
   · intro n; simp [sizeVal, pixSize_withImg]
   · exact angVal_withDeg
+
+theorem pairs_map {α β : Type} (g : α → β) (l : List α) :
+    pairs (l.map g) = (pairs l).map (List.map fun p => (g p.1, g p.2)) := by
+  fun_induction pairs l with
+  | case1 => rfl
+  | case2 => rfl
+  | case3 x y r ps h ih => simp [pairs, ih, h]
+  | case4 x y r h ih => simp [pairs, ih, h]
+
+theorem splitLast_map {α β : Type} (g : α → β) (l : List α) :
+    splitLast (l.map g) = (splitLast l).map (fun p => (p.1.map g, g p.2)) := by
+  fun_induction splitLast l with
+  | case1 => rfl
+  | case2 => rfl
+  | case3 a b r i l h ih => simp only [List.map_cons] at ih ⊢; simp [splitLast, ih, h]
+  | case4 a b r h ih => simp only [List.map_cons] at ih ⊢; simp [splitLast, ih, h]
+
+theorem splitArgs_map (g : Num → Num) (s : Shape) (args : List Num) :
+    splitArgs s (args.map g) = (splitArgs s args).map (mapRaw g g) := by
+  cases s with
+  | circle => rcases args with _ | ⟨a, _ | ⟨b, _ | ⟨c, _ | ⟨d, r⟩⟩⟩⟩ <;> simp [splitArgs, mapRaw]
+  | point => rcases args with _ | ⟨a, _ | ⟨b, _ | ⟨c, r⟩⟩⟩ <;> simp [splitArgs, mapRaw]
+  | text => rcases args with _ | ⟨a, _ | ⟨b, _ | ⟨c, r⟩⟩⟩ <;> simp [splitArgs, mapRaw]
+  | line => rcases args with _ | ⟨a, _ | ⟨b, _ | ⟨c, _ | ⟨d, _ | ⟨e, r⟩⟩⟩⟩⟩ <;> simp [splitArgs, mapRaw]
+  | polygon =>
+    simp only [splitArgs, pairs_map]
+    cases pairs args <;> simp [mapRaw]
+  | annulus =>
+    rcases args with _ | ⟨a, _ | ⟨b, r⟩⟩ <;> simp [splitArgs, mapRaw]
+  | ellipse =>
+    rcases args with _ | ⟨a, _ | ⟨b, r⟩⟩ <;> simp [splitArgs]
+    rw [splitLast_map]
+    cases splitLast r <;> simp [pairs_map]
+    rename_i p
+    cases pairs p.1 <;> simp
+    split <;> simp [mapRaw]
+  | box =>
+    rcases args with _ | ⟨a, _ | ⟨b, r⟩⟩ <;> simp [splitArgs]
+    rw [splitLast_map]
+    cases splitLast r <;> simp [pairs_map]
+    rename_i p
+    cases pairs p.1 <;> simp
+    split <;> simp [mapRaw]
+
+/-- `bare_is_degrees` on the parameter list as written: append `d` to every bare number of a
+region line in a sky frame — nothing changes. -/
+theorem bare_is_degrees_line (f : Frame) (hf : f ≠ .image) (s : Shape) (args : List Num) :
+    geoms f s (args.map (withSuffix .deg)) = geoms f s args := by
+  unfold geoms
+  rw [splitArgs_map]
+  cases splitArgs s args <;> simp [bare_is_degrees f hf]
 
 /-- the values themselves. -/
 theorem bare_values (f : Frame) (hf : f ≠ .image) (lon : Bool) (q : ℚ) :
@@ -1017,6 +1067,31 @@ example :
     inert .badShape = true ∧ inert .comment = true ∧
     (∀ f, (final init [.frame .image]).frame = some f →
       geoms f .circle [.dec 1 .none, .dec 2 .none, .dec 3 .arcsec] = []) := by
+  decide +kernel
+
+/-! ### character level: the executable lexer `Spec.Ds9.lex` (no general theorems; the driver checks
+`lex text = tokens` on every generated file) -/
+
+example :
+    lex "FK5; -Circle(10:00:00, -20:30:00.5 3\")" =
+      [.word (.frame .fk5), .semi, .minus, .word (.shape .circle), .lpar, .num (.colon false 10 0 0), .comma,
+       .num (.colon true 20 30 (1/2)), .num (.dec 3 .arcsec), .rpar] := by
+  decide +kernel
+
+example :
+    lex "box # Color=red TEXT={Hi; there} dashlist=8 3 note\n# c" =
+      [.word (.shape .box), .hash, .kv ⟨"color", .bare, "red"⟩, .kv ⟨"text", .brace, "Hi; there"⟩,
+       .kv ⟨"dashlist", .bare, "8 3"⟩, .note "note", .nl, .hash, .note "c"] := by
+  decide +kernel
+
+/-- from characters to regions: newline/parentheses/commas versus ';'/blanks, read by `lex`. -/
+example :
+    interp (lex "image\n-box(10.5,20,4,3,30) # text={007}") =
+      [⟨⟨.rectangle, [(.pix (19/2), .pix 19)], [.pix 4, .pix 3], some (.deg 30)⟩, .image, false,
+          [⟨"text", .brace, "007"⟩]⟩] ∧
+    interp (lex "IMAGE;-Box 10.5 20 4 3 30 # TEXT={007}") =
+      [⟨⟨.rectangle, [(.pix (19/2), .pix 19)], [.pix 4, .pix 3], some (.deg 30)⟩, .image, false,
+          [⟨"text", .brace, "007"⟩]⟩] := by
   decide +kernel
 
 end RegionsVerif.Props.C10
